@@ -20,7 +20,11 @@ type H2Script struct {
 	Events  []FPEvent
 	Reqs    []H2Req
 	Refused []uint32 // streams opened by HEADERS frames the server must refuse (stream error)
-	NPrio   int
+	// the script ends with a SETTINGS frame that carries valid entries and one the server rejects
+	// (connection error): the frame was sent, so a request forwarded afterwards carries either the
+	// previous SETTINGS or this whole frame - never the entries up to the rejected one
+	BadSettings bool
+	NPrio       int
 }
 
 type H2GenOpts struct {
@@ -29,6 +33,7 @@ type H2GenOpts struct {
 	Bodies           bool
 	ExtraMax         int  // extra fingerprint-relevant frames before each request
 	TailFrames       bool // more frames after the last request
+	BadSettingsTail  bool // 15%: the script ends with a SETTINGS frame whose last-but-n entry the server must reject
 	OneGroupPerFrame bool
 }
 
@@ -250,6 +255,24 @@ func DrawH2Script(t *rapid.T, o H2GenOpts) *H2Script {
 			maybeFlush()
 			extra(uint32(2*nreq+3), "ntail2")
 		}
+	}
+	if o.BadSettingsTail && drawBool(t, "badsettings", 15) {
+		var ss []Setting
+		for _, x := range drawSettingsList(t) {
+			if x.ID != 2 && x.ID != 5 && x.ID != 8 {
+				ss = append(ss, x)
+			}
+		}
+		if len(ss) == 0 {
+			ss = []Setting{{1, 4096}}
+		}
+		bad := []Setting{{2, 2}, {5, 100}, {5, 1 << 24}, {8, 2}}[rapid.IntRange(0, 3).Draw(t, "badsetting")]
+		at := rapid.IntRange(1, len(ss)).Draw(t, "badsettingat")
+		ss = append(ss[:at:at], append([]Setting{bad}, ss[at:]...)...)
+		cur = append(cur, SettingsFrame(ss...))
+		addEvent(FPEvent{Kind: "settings", Settings: ss})
+		s.BadSettings = true
+		maybeFlush()
 	}
 	flush()
 	return s
